@@ -4,6 +4,7 @@ import (
 	"context"
 	"net/http"
 	"net/url"
+	"strings"
 
 	"google.golang.org/genproto/googleapis/api/annotations"
 )
@@ -331,4 +332,42 @@ func hC18Panic() {
 	verifReach("handler-panicked")
 	verifAssert(panicked, "handler panic propagates to the HTTP server")
 	verifAssert(seen != nil && seen.Err() != nil, "C18: context cancelled even when the handler panics")
+}
+
+// hC18RestMethod: a REST request whose path matches a route (through a path variable or a literal) but whose
+// HTTP method has no binding there is rejected by the transcoder itself (405 with an Allow header): neither the
+// service handler nor a configured unknown-endpoint handler is invoked.
+func hC18RestMethod() {
+	svc := newFakeService(pipeSvc)
+	svc.addMethod(pipeMethod, fkUnary, 0, false)
+	backend := &passBackend{}
+	unk := &passBackend{}
+	fc := &fakeConfig{protocols: []Protocol{ProtocolGRPC}, codecs: []string{CodecProto}, maxMsg: 4096}
+	tpl := []string{"/v1/{name}", "/v1/things", "/v1/{name}/x:go"}[verifChoose("template", 3)]
+	path := []string{"/v1/abc", "/v1/things", "/v1/abc/x:go"}[verifChoose("template", 3)]
+	rules := []*annotations.HttpRule{{Selector: pipeSvc + "." + pipeMethod, Pattern: &annotations.HttpRule_Get{Get: tpl}}}
+	var unknown http.Handler
+	if verifChoose("unknownHandler", 2) == 1 {
+		unknown = unk
+	}
+	tr, err := newFakeTranscoder(svc, backend, fc, rules, unknown)
+	verifAssert(err == nil, "rule accepted")
+	if err != nil {
+		return
+	}
+	method := []string{"POST", "DELETE", "PUT"}[verifChoose("method", 3)]
+	req := &http.Request{Method: method, URL: &url.URL{Path: path}, Proto: "HTTP/1.1", ProtoMajor: 1, ProtoMinor: 1,
+		Header: http.Header{"Content-Type": {"application/json"}}, Body: &fakeBody{data: []byte("{}")}, ContentLength: -1}
+	sink := newFakeSink()
+	tr.ServeHTTP(sink, req)
+	verifObsInt("status", int64(sink.status))
+	verifObsInt("service-calls", int64(backend.calls))
+	verifObsInt("unknown-calls", int64(unk.calls))
+	verifReach("wrong-method")
+	matches, _, _ := tr.restRoutes.match(path, "GET")
+	if matches == nil {
+		return // the path does not belong to the template (mixed choices): not this harness's subject
+	}
+	verifAssert(backend.calls == 0 && unk.calls == 0, "C18: a request with a method the matching route does not have never reaches a handler")
+	verifAssert(sink.status == 405 && strings.Contains(sink.headSnap.Get("Allow"), "GET"), "C18: it is answered 405 with an Allow header naming the route's methods")
 }
